@@ -1,7 +1,8 @@
 (* C04/PropsRSRun.v — property-level theorems of C04 for erasure-coded chunks at RUN level, over the one-chunk
    transition model C04/RSRun.v (plan of an attempt = C13.Model.reconstruct_plan, detect round =
    C04.RSModel.rs_chunk_task_of: the definitions the relational lines 92 / 93 of TestVerifC04RS are judged with).
-   The run-level model is tied to the real code through those per-attempt lines only; it has no trace lines of its own.
+   The run-level model is tied to the real code through those per-attempt lines and through the per-step line 94
+   (c04_rs_step_verdict_sound).
    Schedule predicate RSRun.rs_ok_ev: (1) a fault is accepted iff afterwards rs_safe holds - at least n named pieces are
    intact and, while a completely encoded attempt awaits its commit, at least n pieces of the list it will commit are
    intact; (2) a GC gone instruction is delivered undelayed, in the generation it was computed in - the condition of
@@ -9,6 +10,7 @@
    witness of C05) and leader change; the delayed instruction is the known finding F5 and stays outside. *)
 From Coq Require Import List NArith ZArith Arith Bool Lia.
 From BLB Require Import C13.Model C04.RSProofs C04.RSRun C04.RSRunProofs.
+From BLB Require C04.RSModel.
 Import ListNotations.
 Local Open Scope nat_scope.
 
@@ -36,21 +38,32 @@ Theorem c04_rs_commit_plain_premise_refuted :
 Proof. exact rs_commit_plain_premise_refuted. Qed.
 Print Assumptions c04_rs_commit_plain_premise_refuted.
 
-(* [FULL] c04_rs_repair_progress - in every reachable state of the one chunk model - first intact named pieces plus bad named indices make up the host list so the measure is the number of bad named indices - second an abandoned attempt that is a failed increment with or without a partial write or a tractserver restart during the encode or a lost reply or a leader change leaves the named list and the measure unchanged - third if the named hosts are distinct and n plus m many and some named index is bad then the fault free schedule heal_run which is leader change then scrub and report of every index then one detect round then the attempt onto as many fresh distinct spares as there are bad indices then all its increments then the commit is accepted and contains neither fault nor delivery and ends with no bad named index and n plus m intact named pieces and no attempt in flight so one successful attempt takes the measure to zero whatever was abandoned before. The detect round is chunkTask as judged by line 93 and the attempt's plan is reconstruct_plan as judged by line 92 *)
-Theorem c04_rs_repair_progress : forall n m hosts evs, n <= length hosts ->
+(* [FULL] c04_rs_repair_progress - in every state reachable by an accepted run from a freshly committed chunk whose n plus m named hosts are pairwise distinct - first the named hosts are still pairwise distinct and n plus m many which is an invariant because only the commit changes the list and it installs distinct fresh spares at the bad indices - second intact named pieces plus bad named indices make up the host list so the measure is the number of bad named indices - third an abandoned attempt that is a failed increment with or without a partial write or a tractserver restart during the encode or a lost reply or a leader change leaves the named list and the measure unchanged - fourth if some named index is bad then the fault free schedule heal_run which is leader change then scrub and report of every index then one detect round then the attempt onto as many fresh distinct spares as there are bad indices then all its increments then the commit is accepted and contains neither fault nor delivery and ends with no bad named index and n plus m intact named pieces and no attempt in flight so one successful attempt takes the measure to zero whatever was abandoned before. The detect round is chunkTask as judged by line 93 and the attempt's plan is reconstruct_plan as judged by line 92 *)
+Theorem c04_rs_repair_progress : forall n m hosts evs, NoDup hosts -> length hosts = n + m ->
   rs_ok_run rs_ok_ev (rs_init n m hosts) evs = true ->
   let st := reach n m hosts evs in
+  (NoDup (r_hosts st) /\ length (r_hosts st) = n + m) /\
   (intact_named st + bad_named st = length (r_hosts st)) /\
   (forall ev, abandons ev = true ->
      r_hosts (rstep st ev) = r_hosts st /\ bad_named (rstep st ev) = bad_named st /\ intact_named (rstep st ev) = intact_named st) /\
   (forall newids incs,
-     NoDup (r_hosts st) -> length (r_hosts st) = n + m ->
      0 < bad_named st -> fresh (r_hosts st) newids = true -> distinctN newids = true -> length newids = bad_named st -> 0 < incs ->
      let run := heal_run (length (r_hosts st)) newids incs in
      rs_ok_run rs_ok_ev st run = true /\ forallb plain run = true /\
      bad_named (rrun st run) = 0 /\ intact_named (rrun st run) = n + m /\ r_att (rrun st run) = None).
-Proof. exact rs_repair_progress. Qed.
+Proof. exact rs_repair_progress2. Qed.
 Print Assumptions c04_rs_repair_progress.
+
+(* [FULL] c04_rs_step_verdict_sound - the tie of the run level model to the real run. After every step the RS harness writes line 94 with the step kind and n and the number of named pieces that read back as the original bytes before and after the step and whether the durable host list changed and whether the step was an injected fault and the extracted RSModel.rs_step_judge answers verdict 28 if a step that is no fault took that number from at least n to below n and verdict 29 if a step other than a reconstruction changed the named list and 1 otherwise. This theorem says the judge accepts every step of every accepted model run where a harness step is any accepted segment of model events and only a segment of kind 5 which is a reconstruction may contain the commit - so verdicts 28 and 29 on the real code are departures from c04_rs_no_loss_run *)
+Theorem c04_rs_step_verdict_sound : forall n m hosts evs seg kind fault, n <= length hosts ->
+  rs_ok_run rs_ok_ev (rs_init n m hosts) evs = true ->
+  let st := reach n m hosts evs in
+  rs_ok_run rs_ok_ev st seg = true -> (kind <> C04.RSModel.K_STEP_RECON -> ~ In ECommit seg) ->
+  let st' := rrun st seg in
+  C04.RSModel.rs_step_judge kind (Z.of_nat n) (Z.of_nat (intact_named st)) (Z.of_nat (intact_named st'))
+    (if list_eq_dec N.eq_dec (r_hosts st') (r_hosts st) then 0%Z else 1%Z) fault = 1%Z.
+Proof. exact rs_step_verdict_sound. Qed.
+Print Assumptions c04_rs_step_verdict_sound.
 
 (* non-vacuity: g0 (damage, scrub, detect, attempt, commit), g2 (delete; an attempt dying after a partial write; an
    encoded attempt whose reply is lost; leader change; retry onto the same spare; a second fault and repair; GC of the
